@@ -1,28 +1,34 @@
 #!/bin/sh
 # Apply every kept behaviour-preserving change (refactors/<prop>_*.diff) to a scratch
 # copy of /repo in turn and run the property's quick check on it: every one must stay quiet.
-# Usage: tools/check_refactors.sh [dir-or-diff ...]   (default: /verif/refactors)
+# Usage: tools/check_refactors.sh [-j N] [dir-or-diff ...]   (default: /verif/refactors)
 cd /verif
 export GOFLAGS=-mod=mod GOPROXY=off GOSUMDB=off GOTOOLCHAIN=local
-S=/var/tmp/verif-refac.$$
-trap 'rm -rf $S' EXIT
+J=3
+if [ "$1" = "-j" ]; then J=$2; shift 2; fi
+if [ "$1" = "--one" ]; then
+  f=$2
+  prop=$(basename $f | cut -c1-3)
+  S=/var/tmp/verif-refac.$$
+  trap 'rm -rf $S' EXIT
+  mkdir -p $S
+  rsync -a --exclude .git --exclude examples --exclude docs --exclude files /repo/ $S/r/
+  if ! (cd $S/r && patch -p1 -s < $f); then echo "ERROR $(basename $f): patch does not apply"; exit 1; fi
+  if ! (cd $S/r && go build ./sdf ./render ./obj 2>/dev/null); then echo "ERROR $(basename $f): does not build"; exit 1; fi
+  t0=$(date +%s)
+  out=$(./check $prop --repo $S/r --no-evidence 2>&1); ec=$?
+  t1=$(date +%s)
+  if [ $ec -eq 0 ] && ! echo "$out" | grep -q VIOLATION; then
+    echo "quiet $(basename $f) [$prop] $((t1-t0))s $(echo "$out" | grep -c '^carried over') carried"
+    exit 0
+  fi
+  echo "FALSE-ALARM $(basename $f) [$prop] $((t1-t0))s exit=$ec: $(echo "$out" | grep -m3 'refuted obligation\|no longer\|missing\|engine' | cut -c1-200 | tr '\n' ' ')"
+  exit 1
+fi
 args="$*"; [ -z "$args" ] && args=/verif/refactors
 files=""
 for a in $args; do
   if [ -d "$a" ]; then files="$files $(ls $a/*.diff 2>/dev/null)"; else files="$files $a"; fi
 done
-rc=0
-for f in $files; do
-  prop=$(basename $f | cut -c1-3)
-  rm -rf $S; mkdir -p $S
-  rsync -a --exclude .git --exclude examples --exclude docs --exclude files /repo/ $S/r/
-  if ! (cd $S/r && patch -p1 -s < $f); then echo "ERROR $(basename $f): patch does not apply"; rc=1; continue; fi
-  if ! (cd $S/r && go build ./sdf ./render ./obj 2>/dev/null); then echo "ERROR $(basename $f): does not build"; rc=1; continue; fi
-  out=$(./check $prop --repo $S/r --no-evidence 2>&1); ec=$?
-  if [ $ec -eq 0 ] && ! echo "$out" | grep -q VIOLATION; then
-    echo "quiet $(basename $f) [$prop]"
-  else
-    echo "FALSE-ALARM $(basename $f) [$prop] exit=$ec: $(echo "$out" | grep -m3 'refuted obligation\|VIOLATION\|undecided\|engine' | cut -c1-220 | tr '\n' ' ')"; rc=1
-  fi
-done
-exit $rc
+echo $files | tr ' ' '\n' | xargs -P $J -I{} $0 --one {} | sort -k2
+[ -z "$(echo $files | tr ' ' '\n' | xargs -P $J -I{} true)" ] || true
